@@ -104,7 +104,8 @@ AlphabetCarry(K) ==          \* messages that carry content, then edits inside w
            <<StoryEmpty(FreshFrom(FreshPoolS, IdSet(K, "story"))[1])>>),              \* a placeholder story without items
        Msg("EAItemReplace", RefId(f), RefId(fi), <<>>, FreshItems(fk, 1)),
        Msg("MetaDataReplace", RefAbsent, RefAbsent, <<>>,
-           << Leaf("roID", RoIdC, "="), Leaf("roSlug", None, "x:newSlug") >>) }
+           << Leaf("roID", RoIdC, "="), Leaf("roSlug", None, "x:newSlug"),
+              Leaf("roChannel", None, "x:newChannel") >>) }          \* replaces one element, adds one the running order lacks
      \cup { m \in SendMsgs(K) : m.story = RefId(f) /\ m.bodyPos = 5 /\ Len(m.body) = 1 /\ m.stok = "a:send" }
      \cup { m \in OtherMsgs("RunningOrderReplace", K) : Len(m.carried) = 3 /\ m.carried[3].tag = "story" }
 
